@@ -48,6 +48,8 @@ def gen(ctx: common.Ctx, n_hist: int, steps: tuple[int, int], all_configs: bool,
         if r.random() < 0.3:
             flags = r.choice([["--strict"], ["--warn-unreachable"], ["--disallow-any-generics"], ["--no-implicit-reexport"],
                               ["--python-version", "3.10"], ["--strict-equality"], ["--follow-imports=silent"]])
+        if r.random() < 0.15:
+            flags = [*flags, "--follow-imports=silent"] if "--follow-imports=silent" not in flags else flags
         skip = [i for i in range(1, n - 1) if r.random() < 0.12]
         targets = r.choice([["main.py"], ["main.py"], ["."]])
         for cfg in (cfgs if all_configs else [cfgs[k % 4]]):
